@@ -308,6 +308,12 @@ def build_p2sh(ctx, release=False):
 # ---------------------------------------------------------------- engines
 
 MAX_HANGS_PER_SHARD = 2
+DRIVER_MEMORY_CAP = 6 * 1024 ** 3
+
+
+def _cap_memory():
+    import resource
+    resource.setrlimit(resource.RLIMIT_AS, (DRIVER_MEMORY_CAP, DRIVER_MEMORY_CAP))
 
 
 def _run_lines(exe, lines, timeout, label, extra_env=None):
@@ -333,7 +339,8 @@ def _run_lines(exe, lines, timeout, label, extra_env=None):
         eff_timeout = timeout + 0.03 * len(chunk) + len(data) / 200000.0
         try:
             with tempfile.TemporaryFile() as errf:
-                p = subprocess.run([exe], input=data, stdout=subprocess.PIPE, stderr=errf, timeout=eff_timeout, env=e)
+                p = subprocess.run([exe], input=data, stdout=subprocess.PIPE, stderr=errf, timeout=eff_timeout, env=e,
+                                   preexec_fn=_cap_memory if label == "driver" else None)
                 errf.seek(max(0, errf.tell() - 4000))
                 errtail = errf.read().decode("utf-8", "replace")
             text = p.stdout.decode("utf-8", "replace")
@@ -352,6 +359,10 @@ def _run_lines(exe, lines, timeout, label, extra_env=None):
                 outs = outs[:-1]
             # the last line may be partial; drop it if it does not end cleanly
             sig = "HANG"
+        if label == "driver" and sig != "MISSING(0)" and (sig.startswith("ABORT") or sig == "HANG"):
+            # the Lean model (its deep-copying `reify`, its fuel) gave up on this case: no model output and no
+            # verdict for it — never a statement about the implementation
+            sig = "MODEL-SKIP driver-gave-up ## any"
         outs = outs[: len(chunk)]
         results.extend(outs)
         idx += len(outs)
